@@ -99,6 +99,11 @@ class Parser:
             if self.at("mut"):
                 self.eat()
             return self.ty()
+        if self.at("["):
+            self.eat()                                                   # a slice type `[T]`
+            inner = self.ty()
+            self.eat("]")
+            return A if inner == W else ("N", "Slice")
         if self.at("("):
             self.eat()
             parts = []
@@ -845,7 +850,7 @@ class Emitter:
             return st["ctor"](vals), ("N", e[1])
         if k == "cast":
             v, ty = self.expr(e[1], pre)
-            to = e[2]
+            to = self.alias(e[2]) if getattr(self, "alias", None) else e[2]
             if ty == to:
                 return v, to
             if ty == W and to == U:
@@ -1964,7 +1969,7 @@ class Emitter:
             else:
                 arrv, arrt = self.expr(arr, pre, None)
             if listiter:
-                if arrt not in (("N", "ListIter"), ("N", "PairListIter")):
+                if arrt not in (("N", "ListIter"), ("N", "PairListIter"), ("N", "BoolListIter"), ("N", "WordListIter")):
                     raise Unsupported("`for` over an iterator expression of type %r" % (arrt,))
                 t_ = self.fresh()
                 pre.append("let %s := %s" % (t_, arrv))               # the iterator is evaluated once, before the loop
@@ -2003,6 +2008,10 @@ class Emitter:
                     out.append(ind + "      let %s := %s.getD %s (0, 0)" % (lname(var), arrv, cnt))
             elif arr is not None and arrt == ("N", "ListIter"):
                 out.append(ind + "      let %s := %s.getD %s 0" % (lname(var), arrv, cnt))
+            elif arr is not None and arrt == ("N", "BoolListIter"):
+                out.append(ind + "      let %s := %s.getD %s false" % (lname(var), arrv, cnt))
+            elif arr is not None and arrt == ("N", "WordListIter"):
+                out.append(ind + "      let %s := %s.getD %s 0" % (lname(var), arrv, cnt))
             elif arr is not None and arrt == ("N", "SamplePairs"):
                 if isinstance(var, tuple):
                     self.bind_pat(var, "(%s.getD %s (0, 0))" % (arrv, cnt), ("T", [U, U]), out, ind + "      ")
@@ -2023,7 +2032,7 @@ class Emitter:
         if not isinstance(var, tuple):
             vty = U
             if arr is not None:
-                vty = ("T", [U, U]) if arrt in (("N", "SamplePairs"), ("N", "PairListIter")) else (("N", "BitVector") if arrt == ("N", "BvArray") else (U if arrt == ("N", "ListIter") else W))
+                vty = ("T", [U, U]) if arrt in (("N", "SamplePairs"), ("N", "PairListIter")) else (("N", "BitVector") if arrt == ("N", "BvArray") else (U if arrt == ("N", "ListIter") else (B if arrt == ("N", "BoolListIter") else W)))
             self.env[var] = (lname(var), vty)
         self.loop = nxt
         saved_itermut = getattr(self, "itermut", {})
